@@ -1,4 +1,5 @@
 import FrappyProofs.Lemmas.Describe
+import FrappyProofs.Lemmas.ModuleProps
 import FrappyProofs.Props.C04
 import FrappyModel.Generated.C06
 /-
@@ -6,6 +7,7 @@ C06 — property theorems (nothing but property theorems and their non-vacuity e
 -/
 namespace Frappy.Props.C06
 open Frappy.Node Frappy.Spec.C04 Frappy.Spec.C06 Frappy.Lemmas.Dispatch Frappy.Lemmas.Describe Frappy.Props.C04
+open Frappy.Lemmas.ModuleProps
 
 variable {J V : Type}
 
@@ -843,6 +845,122 @@ example : interfaceClassesOf Frappy.Generated.C06.secopBaseClasses
        ⟨"Module", false⟩, ⟨"object", false⟩] = ["Drivable"] ∧
     featuresOf [⟨"GenB", false⟩, ⟨"FeatSub", false⟩, ⟨"FeatA", true⟩, ⟨"Drivable", false⟩] = ["FeatA"] := by
   decide +kernel
+
+/-! ### module properties: configuration first, automatic properties afterwards -/
+
+section ModuleProps
+variable {P : Type}
+
+/-- **auto_props_ignore_cfg.**  Whatever the configuration of the module says — also for the names `implementation`,
+`interface_classes`, `features`, which the configuration loop accepts like any declared property — the values of these
+three properties after `Module.__init__` are the ones computed from the implementing class. -/
+theorem auto_props_ignore_cfg (enc : PropEnc P) (base : List String) (i : ModInit P) :
+    getProp (propertyValues enc base i) "interface_classes" = some (enc.strs (interfaceClassesOf base i.mro)) ∧
+    getProp (propertyValues enc base i) "features" = some (enc.strs (featuresOf i.mro)) ∧
+    getProp (propertyValues enc base i) "implementation" = some (enc.str i.impl) :=
+  ⟨setAuto_interface .., setAuto_features .., setAuto_implementation ..⟩
+
+/-- every OTHER declared property does follow the configuration (so the model of step 2 is not vacuous): a configured
+value wins over the class-level value -/
+theorem cfg_prop_applied (enc : PropEnc P) (base : List String) (i : ModInit P) (d : PropDecl P) (hd : d ∈ i.decls)
+    (h1 : d.name ≠ "features") (h2 : d.name ≠ "interface_classes") (h3 : d.name ≠ "implementation")
+    (v : P) (hv : getProp i.cfg d.name = some v) :
+    propValue (propertyValues enc base i) d = v := by
+  unfold propValue propertyValues
+  rw [setAuto_other _ _ _ _ _ _ h1 h2 h3, getProp_applyCfg, if_pos (List.mem_map_of_mem hd)]
+  unfold cfgOr; rw [hv]; rfl
+
+/-- what the report says about the three automatic properties, explicitly -/
+theorem reported_auto_props [DecidableEq P] (ser : P → J) (enc : PropEnc P) (base : List String) (i : ModInit P)
+    (hd : AutoDecls ser i.decls (ser (enc.strs [])) (ser (enc.str ""))) :
+    reportedProp (moduleProps ser enc base i) "interface_classes" (ser (enc.strs [])) =
+      ser (enc.strs (interfaceClassesOf base i.mro)) ∧
+    reportedProp (moduleProps ser enc base i) "features" (ser (enc.strs [])) = ser (enc.strs (featuresOf i.mro)) ∧
+    reportedProp (moduleProps ser enc base i) "implementation" (ser (enc.str "")) = ser (enc.str i.impl) := by
+  obtain ⟨dI, hI, hIn, hIe, hIx, hId⟩ := hd.ic
+  obtain ⟨dF, hF, hFn, hFe, hFx, hFd⟩ := hd.feats
+  obtain ⟨dM, hM, hMn, hMe, hMx, hMd⟩ := hd.impl
+  obtain ⟨a1, a2, a3⟩ := auto_props_ignore_cfg enc base i
+  refine ⟨?_, ?_, ?_⟩
+  · have := reportedProp_exportProps ser i.decls (propertyValues enc base i) hd.uniq dI hI hIx
+    rw [hIe, hId] at this
+    show reportedProp (exportProps ser i.decls (propertyValues enc base i)) _ _ = _
+    rw [this]; unfold propValue; rw [hIn, a1]; rfl
+  · have := reportedProp_exportProps ser i.decls (propertyValues enc base i) hd.uniq dF hF hFx
+    rw [hFe, hFd] at this
+    show reportedProp (exportProps ser i.decls (propertyValues enc base i)) _ _ = _
+    rw [this]; unfold propValue; rw [hFn, a2]; rfl
+  · have := reportedProp_exportProps ser i.decls (propertyValues enc base i) hd.uniq dM hM hMx
+    rw [hMe, hMd] at this
+    show reportedProp (exportProps ser i.decls (propertyValues enc base i)) _ _ = _
+    rw [this]; unfold propValue; rw [hMn, a3]; rfl
+
+/-- **report_class_props** (the clause "the interface class and features match the implementing class", for every
+configuration).  For a class that declares the three automatic properties (`AutoDecls`, a table fact for frappy's `Module`),
+whatever the module's configuration contains: what the report gives for `interface_classes` and `features` (an absent entry
+reads as the empty list) are the interface class and the features of the class chain — they satisfy `ClassPropsOK` —
+and `implementation` is the name of the implementing class. -/
+theorem report_class_props [DecidableEq P] (ser : P → J) (enc : PropEnc P) (base : List String) (i : ModInit P)
+    (hd : AutoDecls ser i.decls (ser (enc.strs [])) (ser (enc.str ""))) :
+    ReportClassPropsOK ⟨fun s => ser (enc.str s), fun l => ser (enc.strs l)⟩ base i.impl i.mro (moduleProps ser enc base i) := by
+  obtain ⟨h1, h2, h3⟩ := reported_auto_props ser enc base i hd
+  exact ⟨interfaceClassesOf base i.mro, featuresOf i.mro, class_props_derived base i.mro, h1, h2, h3⟩
+
+/-- corollary: two configurations of the same class give the same three entries -/
+theorem class_props_cfg_independent [DecidableEq P] (ser : P → J) (enc : PropEnc P) (base : List String) (i : ModInit P)
+    (hd : AutoDecls ser i.decls (ser (enc.strs [])) (ser (enc.str ""))) (cfg' : List (String × P)) :
+    reportedProp (moduleProps ser enc base i) "interface_classes" (ser (enc.strs [])) =
+      reportedProp (moduleProps ser enc base { i with cfg := cfg' }) "interface_classes" (ser (enc.strs [])) ∧
+    reportedProp (moduleProps ser enc base i) "features" (ser (enc.strs [])) =
+      reportedProp (moduleProps ser enc base { i with cfg := cfg' }) "features" (ser (enc.strs [])) ∧
+    reportedProp (moduleProps ser enc base i) "implementation" (ser (enc.str "")) =
+      reportedProp (moduleProps ser enc base { i with cfg := cfg' }) "implementation" (ser (enc.str "")) := by
+  obtain ⟨h1, h2, h3⟩ := reported_auto_props ser enc base i hd
+  obtain ⟨h1', h2', h3'⟩ := reported_auto_props ser enc base { i with cfg := cfg' } hd
+  exact ⟨by rw [h1, h1'], by rw [h2, h2'], by rw [h3, h3']⟩
+
+def moduleDeclsTable : List (PropDecl (String × String)) :=
+  Frappy.Generated.C06.moduleDecls.map (fun e => ⟨e.1, e.2.1, e.2.2.1, e.2.2.2.1, (e.2.2.2.2.1, e.2.2.2.2.2)⟩)
+
+/-- table fact: frappy's `Module` declares the three automatic properties as `AutoDecls` wants them: exported under their
+own names, the defaults read `[]`, `[]`, `""` (re-checked whenever modulebase.py changes) -/
+theorem module_decls_auto : AutoDecls (fun p : String × String => p.2) moduleDeclsTable "[]" "\"\"" := by
+  refine ⟨?_, ?_, ?_, ?_⟩
+  · unfold ExtUnique; decide +kernel
+  · decide +kernel
+  · decide +kernel
+  · decide +kernel
+
+/-- a toy serialisation for the examples (Python value, exported text) — without string concatenation, which the kernel
+cannot evaluate: a one-element list is written as its element -/
+def exEnc : PropEnc (String × String) where
+  str := fun s => if s = "" then ("s:\"\"", "\"\"") else (s, s)
+  strs := fun l => match l with
+    | [] => ("t[]", "[]")
+    | [x] => (x, x)
+    | _ => ("many", "many")
+
+/-- non-vacuity: a Readable whose configuration claims to be a Drivable with a feature and another implementation, and
+sets a group: the group is taken over, the three automatic properties are those of the class (`features`: the validated
+empty tuple differs from the default `[]`, so it is exported) -/
+example :
+    moduleProps (fun p : String × String => p.2) exEnc Frappy.Generated.C06.secopBaseClasses
+      ⟨moduleDeclsTable, [],
+       [("group", ("s:g", "g")), ("interface_classes", ("Drivable", "Drivable")),
+        ("features", ("HasOffset", "HasOffset")), ("implementation", ("x.Y", "x.Y"))],
+       "demo.Plain", [⟨"Plain", false⟩, ⟨"Readable", false⟩, ⟨"Module", false⟩]⟩ =
+      [("group", "g"), ("implementation", "demo.Plain"), ("interface_classes", "Readable"), ("features", "[]")] := by
+  decide +kernel
+
+/-- the hypotheses of `report_class_props` hold for frappy's `Module` with that serialisation -/
+example (cfg : List (String × String × String)) (mro : List ClassInfo) :
+    ReportClassPropsOK ⟨fun s => (exEnc.str s).2, fun l => (exEnc.strs l).2⟩ Frappy.Generated.C06.secopBaseClasses "demo.Plain" mro
+      (moduleProps (fun p : String × String => p.2) exEnc Frappy.Generated.C06.secopBaseClasses
+        ⟨moduleDeclsTable, [], cfg, "demo.Plain", mro⟩) :=
+  report_class_props (fun p : String × String => p.2) exEnc Frappy.Generated.C06.secopBaseClasses
+    ⟨moduleDeclsTable, [], cfg, "demo.Plain", mro⟩ module_decls_auto
+
+end ModuleProps
 
 /-! ### non-vacuity (the node of `Props.C04.Example`) -/
 
